@@ -240,9 +240,9 @@ var build = op{K: "b"}
 
 // structured traffic: mostly in order, loss, reordering, duplicates, jumps, time anomalies
 func genStructured(r *rand.Rand) ([]op, []string) {
-	n := 5 + r.Intn(120)
-	if r.Intn(8) == 0 {
-		n = 150 + r.Intn(250)
+	n := 5 + r.Intn(75)
+	if r.Intn(7) == 0 {
+		n = 100 + r.Intn(150)
 	}
 	ops := make([]op, 0, n+4)
 	seq := int64(r.Intn(65536))
@@ -305,16 +305,16 @@ func genStructured(r *rand.Rand) ([]op, []string) {
 		default:
 			if r.Intn(100) < lossP {
 				g := 1 + r.Intn(3)
-				switch k := r.Intn(80); {
-				case k < 6:
+				switch k := r.Intn(400); {
+				case k < 30:
 					g = 5 + r.Intn(12) // around 7 / 14
-				case k == 6:
+				case k == 30:
 					g = 8185 + r.Intn(12)
 					bset["gap-8191"] = true
-				case k == 7:
+				case k == 31:
 					g = 32760 + r.Intn(12) // around 0x7FFE / 2^15
 					bset["gap-32766"] = true
-				case k < 16:
+				case k < 60:
 					g = 20 + r.Intn(300)
 				}
 				seq += int64(g)
@@ -511,17 +511,17 @@ func main() {
 		cq.LoadReplay(f, &c)
 		add(run(c.Sender, c.Ops), "corpus:"+filepath.Base(f))
 	}
-	nb := o.Scale(600, 40000)
+	nb := o.Scale(480, 40000)
 	for i := 0; i < nb; i++ {
 		ops, bs := genBoundary(r, i)
 		add(run(uint32(r.Intn(1<<16)), ops), bs...) //nolint:gosec
 	}
-	ns := o.Scale(1100, 150000)
+	ns := o.Scale(520, 150000)
 	for i := 0; i < ns; i++ {
 		ops, bs := genStructured(r)
 		add(run(uint32(r.Intn(1<<16)), ops), bs...) //nolint:gosec
 	}
-	nl := o.Scale(2, 40)
+	nl := o.Scale(0, 4)
 	for i := 0; i < nl; i++ {
 		ops, bs := genLongRun(r)
 		add(run(4242, ops), bs...)
